@@ -60,6 +60,11 @@ CHECKS = {
     technique="TLA+ observation specification (LifecycleObs) evaluated by TLC over recorded device-call traces of the real runtime driven by grammar-generated client programs under a deterministic scheduler",
     text="Client programs generated from the usage grammar (configure with any of 7 device assignments over 2 cameras x 2 storages incl. none / swapped / re-configure while running, start, start while running, zero-configuration start, trigger, map/unmap, stop, abort, get_state, shutdown; 4-14 calls) drive the real runtime under seeded random/PCT/starvation schedules; the mock driver numbers every opened handle and LifecycleObs (TLC) requires per handle: start only when not running, exactly one stop per start, append/frame only between start and stop, exactly one close (by shutdown at the latest), nothing after close or after shutdown; Running only while a worker is alive, Armed after stop/abort.",
     note="Trusted: as the pipeline checks. Well-formedness assumptions stated in DESIGN.md: a stream is not switched to a DIFFERENT device while its acquisition runs; a client that has mapped a stream keeps polling until the acquisition is over before calling stop."),
+ "C11": dict(
+    category="model_checking", design_ref="DESIGN.md section 6 (C11), section 15",
+    technique="TLA+ model checking (TLC, complete graph of Hal.tla for camera and storage x every driver answer) bound to camera.c/storage.c/driver.c by per-transition replay, exhaustive bounded-history walks and implementation-driven exploration whose call logs are judged by the TLA+ observation spec DeviceProtocolObs in TLC",
+    text="Hal.tla models the HAL state field against the driver-side truth for every HAL function x every status/state the driver may answer (incl. NULL vtable entries, describe/open/close failures, out-of-range states); TLC explores the complete graph (so histories of any length) and checks: no stop without a successful start, no frame/append outside running, exactly one close per open and nothing afterwards, reported state follows the driver's last answer. Every exported transition and every history to depth 6 (8 thorough) is replayed into the real wrappers with a scripted mock driver whose close poisons and shadow-copies the released block (any later vtable call or write is an event); the real wrappers' own state graph is explored exhaustively; all call logs are judged by DeviceProtocolObs.",
+    note="Trusted: TLC; the mock driver's poisoning (plain reads of a released block are only visible to the ASan instrument build); one device per history; storage drivers' returned state is taken as the driver-side truth (strict reading available as a switch, reported separately)."),
 }
 
 def main():
